@@ -806,6 +806,7 @@ func arenaTrees(c *Ctx) {
 			}
 			nodes[j].Children = arena[start:len(arena)] // cap extends to the end of the arena
 		}
+		c.begin("PreOrder/PostOrder of a tree with %d nodes whose Children slices are consecutive windows of one backing array with spare capacity (parents %v)", n, kids)
 		var before []string
 		recPre(nodes[0], &before)
 		var wantPost []string
